@@ -213,14 +213,21 @@ func UtxoValidateValueNotConservedUtxo(
 	if fee := tx.Fee(); fee != nil {
 		producedValue.Add(producedValue, fee)
 	}
+	// A pool that is new to the ledger state pays its deposit once per
+	// transaction, even if several certificates register it.
+	newPools := make(map[common.PoolKeyHash]struct{})
 	for _, cert := range tx.Certificates() {
 		switch tmpCert := cert.(type) {
 		case *common.PoolRegistrationCertificate:
+			if _, dup := newPools[tmpCert.Operator]; dup {
+				continue
+			}
 			reg, _, err := ls.PoolCurrentState(common.Blake2b224(tmpCert.Operator))
 			if err != nil {
 				return err
 			}
 			if reg == nil {
+				newPools[tmpCert.Operator] = struct{}{}
 				producedValue.Add(producedValue, new(big.Int).SetUint64(uint64(tmpPparams.PoolDeposit)))
 			}
 		case *common.StakeRegistrationCertificate:
